@@ -26,12 +26,14 @@ class Pools:
             name, content, nst = workload.gen_conforming(r)
             fid = add("gen", name, content, f"gen:{seed}:{i}")
             self.meta[fid]["nstmts"] = nst
-            gens.append((name, content))
+            gens.append((name, content, nst))
         for i in range(n_viol):
             r = core.derive_rng(f"{tag}.viol", seed, i)
-            name, content = gens[r.randrange(len(gens))] if gens else ("a.c", workload.ok_func())
+            name, content, nst0 = gens[r.randrange(len(gens))] if gens else ("a.c", workload.ok_func(), None)
             c2, op = workload.gen_violating(r, name, content)
-            add("viol", name, c2, f"viol:{seed}:{i}:{op}")
+            vid = add("viol", name, c2, f"viol:{seed}:{i}:{op}")
+            if op in workload.COUNT_PRESERVING and nst0 is not None:
+                self.meta[vid]["nstmts"] = nst0
         # damaged members: token-prefix cuts of corpus/generated files (what a short read delivers)
         bases = [fid for fid in self.files if self.meta[fid]["group"] in ("corpus", "gen", "viol")]
         for i in range(n_cut):
